@@ -2353,6 +2353,12 @@ static void judge(const Fault &f, const Loc &l, const Verdict &v, const std::str
     for (Rule r : f.adm) {
         hit = hit || v.errorRules.count(r) != 0;
     }
+    if (verbose()) {
+        fprintf(stderr, "[c04] fault %s at %s (%s): %s\n%s\n", f.name.c_str(), l.cls.c_str(), path.c_str(), l.what.c_str(), v.summary.c_str());
+        if (getenv("C04_DUMP") != nullptr) {
+            fprintf(stderr, "%s\n", replay.c_str());
+        }
+    }
     if (f.probe) {
         seen("probe_outcome", f.name + ":" + (hit ? "reported-with-listed-rule" : (v.errors != 0 ? "reported-with-other-rule" : "not-reported")));
         stat("probes");
@@ -2532,7 +2538,7 @@ static void runFault(Ctx &ctx, size_t fi)
         caseInfo("F:none:" + f.name, false, "fault " + f.name + ": no applicable base model found");
         return;
     }
-    size_t maxN = ctx.thorough() ? (f.math ? 8 : 12) : 3;
+    size_t maxN = ctx.thorough() ? (f.math ? 8 : 10) : 3;
     auto locs = chooseLocs(bestLocs, rng, maxN);
     Outcome o;
     std::string classes;
@@ -2923,8 +2929,8 @@ static Plan makePlan(const std::string &tier)
     p.nPrefix = th ? 150 : 12;
     p.nResolved = th ? 150 : 12;
     p.nCycle = th ? 4 : 2;
-    int reps = th ? 200 : 3;
-    int mathReps = th ? 25 : 3;
+    int reps = th ? 100 : 3;
+    int mathReps = th ? 20 : 3;
     const auto &cat = catalogue();
     for (int r = 0; r < reps; ++r) {
         for (size_t f = 0; f < cat.size(); ++f) {
@@ -2938,6 +2944,13 @@ static Plan makePlan(const std::string &tier)
 
 int64_t vh_case_count(const std::string &tier, uint64_t)
 {
+    if (getenv("C04_LIST") != nullptr) {
+        Plan p = makePlan(tier);
+        int64_t first = p.nWitness + p.nPrefix + p.nResolved + p.nCycle + p.nValid;
+        for (size_t i = 0; i < catalogue().size(); ++i) {
+            fprintf(stderr, "%lld %s%s\n", static_cast<long long>(first + static_cast<int64_t>(i)), catalogue()[i].name.c_str(), catalogue()[i].probe ? " (probe)" : "");
+        }
+    }
     return makePlan(tier).total();
 }
 
